@@ -158,6 +158,31 @@ print('OK' if np.array_equal(a,b) else 'WRONG')
     return r.returncode != 0 or 'OK' not in r.stdout
 
 
+def S_C09d():
+    """An image built around np.asarray(img.dataobj) (a base-class view of the memory map) saved onto the mapped
+    file: run in a child; a crash (SIGBUS) or a wrong file = present."""
+    import subprocess
+    code = r'''
+import numpy as np, nibabel as nib, sys, os, tempfile, warnings
+warnings.simplefilter('ignore')
+d = tempfile.mkdtemp()
+ok = True
+for big in (True, False):
+    for how in ('asarray', 'view'):
+        p = os.path.join(d, 'v_%s_%d.nii' % (how, big))
+        a = (np.arange(4096 if big else 24) % 97 + 1.).reshape((16, 16, 16) if big else (2, 3, 4))
+        nib.save(nib.Nifti1Image(a, np.eye(4)), p)
+        img = nib.load(p)
+        arr = np.asarray(img.dataobj) if how == 'asarray' else np.asanyarray(img.dataobj).view(np.ndarray)
+        nib.save(nib.Nifti1Image(arr, img.affine), p)
+        ok = ok and np.array_equal(np.asarray(nib.load(p).dataobj), a)
+print('OK' if ok else 'WRONG')
+'''
+    env = dict(os.environ)
+    r = subprocess.run([sys.executable, '-c', code], capture_output=True, text=True, env=env, timeout=120)
+    return r.returncode != 0 or 'OK' not in r.stdout
+
+
 def S_C09c():
     """Own-file save with a dtype change, or re-save of a scaled file: image unusable/wrong afterwards."""
     import tempfile, shutil
